@@ -69,6 +69,17 @@ def case_encrypt(rec, case):
     kid = case.get("kid", r.choice(X.KIDS) if r.random() < 0.6 else r.randrange(0, 2 ** 32))
     alg = case.get("alg", HASHES[(case["n"] // 5) % 5])
     key = r.randbytes(32)
+    import random as _random
+    kr = _random.Random(f"key-lookalike/{case['seed']}/{case['n']}")
+    if kr.random() < 0.12:
+        # key BYTES that look like something else: 32 printable bytes that read as a hex dump, as base64, as text with a
+        # newline at the end, or that start with a BOM - a raw key file is 32 arbitrary bytes and is used as they are
+        key = kr.choice([bytes(kr.choice(b"0123456789abcdef") for _ in range(32)),
+                         bytes(kr.choice(b"0123456789ABCDEF") for _ in range(32)),
+                         bytes(kr.choice(b"ABCDEFGHIJKLMNOPQRSTUVWXYZabcdefghijklmnopqrstuvwxyz0123456789+/") for _ in range(32)),
+                         kr.randbytes(31) + b"\n", b"\xef\xbb\xbf" + kr.randbytes(29), kr.randbytes(30) + b"\r\n",
+                         b" " + kr.randbytes(30) + b" "])
+        rec.count("key-bytes-look-like-text")
     keysdir = os.path.join(wd, "enckeys")
     kname = KEY_NAMES[(case["n"] // 2) % len(KEY_NAMES)]
     X.make_key(keysdir, kname, key)
